@@ -376,6 +376,9 @@ func RunRT(c *RTCase) *vkit.Outcome {
 type HostileCase struct {
 	Data   string `json:"data"` // the bytes presented as event data
 	Strict bool   `json:"strict,omitempty"`
+	// Opts is a mask of further materializer options: 1 WithOnError,
+	// 2 WithOnReset, 4 WithOnSnapshot.
+	Opts int `json:"opts,omitempty"`
 }
 
 func snapshotOf(colls []*state.TypedCollection[Entity], other *state.TypedCollection[map[string]any]) string {
@@ -404,6 +407,16 @@ func RunHostile(c *HostileCase) (out *vkit.Outcome) {
 	var opts []state.MaterializerOption
 	if c.Strict {
 		opts = append(opts, state.WithStrictSchema())
+	}
+	onErrors := 0
+	if c.Opts&1 != 0 {
+		opts = append(opts, state.WithOnError(func(error) { onErrors++ }))
+	}
+	if c.Opts&2 != 0 {
+		opts = append(opts, state.WithOnReset(func() {}))
+	}
+	if c.Opts&4 != 0 {
+		opts = append(opts, state.WithOnSnapshot(func(bool) {}))
 	}
 	m := state.NewMaterializer(opts...)
 	users := state.NewTypedCollectionWithType[Entity](state.NewMemoryStore[Entity](), "user")
@@ -448,6 +461,9 @@ func RunHostile(c *HostileCase) (out *vkit.Outcome) {
 	}
 	if err == nil {
 		o.Class("accepted")
+	}
+	if c.Opts&1 != 0 && err != nil {
+		o.Class("rejected_with_on_error_handler")
 	}
 	return o
 }
